@@ -27,3 +27,17 @@ impl NameMap {
 pub assume_specification<T: PartialEq> [<[T]>::contains] (s: &[T], x: &T) -> (r: bool)
     ensures r == s@.contains(*x);
 
+
+// Option<&T>::copied() for Copy T (method_rename copied -> vx_copied)
+pub trait VxCopied<T> { fn vx_copied(self) -> Option<T>; }
+impl<'a, T: Copy> VxCopied<T> for Option<&'a T> {
+    #[verifier::external_body]
+    fn vx_copied(self) -> (r: Option<T>) ensures r is Some == self is Some, r is Some ==> r->Some_0 == *self->Some_0 { self.copied() }
+}
+
+// Option::expect(msg) where a panic with a message is a permitted outcome (C17): if the call returns, the option was Some
+pub trait VxExpect<T> { fn vx_expect(self, msg: &str) -> T; }
+impl<T> VxExpect<T> for Option<T> {
+    #[verifier::external_body]
+    fn vx_expect(self, msg: &str) -> (r: T) ensures self is Some, r == self->Some_0 { self.expect(msg) }
+}
